@@ -21,7 +21,7 @@ LEVEL_TEXT = ("Seeded exploration: the four sort functions are observed on every
               "every rule on live lists; the allocation result is checked against the priority order.")
 LEVEL_NOTE = "Trusted: independent key functions in this module; sampling evidence only."
 PROBES = ["sort_calls_observed", "sort_calls_nontrivial", "director_sort_calls", "mw_match_exists", "hsv_missing_skill",
-          "tie_in_keys", "contention_step", "new_alloc_checked", "json_restart_sorts", "backward_runs"]
+          "tie_in_keys", "contention_step", "new_alloc_checked", "json_restart_sorts", "backward_runs", "task_rule_of_sort_checked"]
 
 TASK_RULES = ["TSLACK", "EST", "SPT", "LPT", "FIFO", "LRPT", "SRPT", "LWRPT", "SWRPT"]
 RES_RULES = {-1: "MW", 0: "SSP", 1: "VC", 2: "HSV"}
@@ -199,9 +199,29 @@ def run(spec):
     res = C.campaign.Result()
     pending = []
 
+    by_name = {}
+    for tid_ in st.order:
+        by_name.setdefault(st.name(tid_), []).append(tid_)
+    RULE_OF = {"sort_worker_list": ("wrule", -1, "worker_priority_rule"), "sort_facility_list": ("frule", 0, "facility_priority_rule"),
+               "sort_workplace_list": ("prule", 0, "workplace_priority_rule")}
+
     def keyfn(rec, call):
         pending.append((rec.cur.t if rec.cur is not None else -1, call))
         res.count("sort_calls_observed")
+        if call["fn"] in RULE_OF and call["exc"] is None:
+            # candidates of a task are ranked with the rule this task selects for this kind of resource
+            key_, dflt, attr = RULE_OF[call["fn"]]
+            owners = by_name.get(call["kw"].get("name"), [])
+            got = call["args"][0] if call["args"] else call["kw"].get("priority_rule_mode")
+            if len(owners) == 1 and got is not None:
+                exp = st.tasks[owners[0]].get(key_)
+                exp = dflt if exp is None else exp
+                res.count("task_rule_of_sort_checked")
+                if int(got) != exp:
+                    res.add("task_rule", "C11.allocation_ranks_with_other_rule.%s" % call["fn"],
+                            "step %s: %s for task %s was called with rule %s, the task's %s is %s"
+                            % (rec.cur.t if rec.cur is not None else "?", call["fn"], owners[0], int(got), attr, exp),
+                            rec.cur.t if rec.cur else None)
         check_sort(res, call["fn"], call["in"], call["args"], call["kw"], call["out"], call["exc"],
                    "observed during allocation of step %s" % (rec.cur.t if rec.cur is not None else "?"), rec.cur.t if rec.cur else None)
 
@@ -284,11 +304,39 @@ def run(spec):
                         continue
                     res.count("new_alloc_checked")
                     for H in open_tasks:
-                        if H == L or st.auto(H) or st.nf(H):
+                        if H == L or st.auto(H):
                             continue
                         if not (pk(H) < pk(L) - 1e-12):
                             continue
                         if not st.eligible_w(w, H):
+                            continue
+                        if st.nf(H):
+                            # facility task: it could still have used the worker if a facility of the workplace where its
+                            # component stays throughout this step was free before and is unassigned after the allocation,
+                            # is eligible, can be operated by the worker, and no solo rule forbids the pair
+                            cid = st.task_comp.get(H)
+                            if cid is None or st.parents.get(cid) or st.children.get(cid):
+                                continue
+                            X = A["C"][cid][1]
+                            if X is None or X != U["C"][cid][1] or X not in st.wp:
+                                continue
+                            ws, fs = AT[H][2], AT[H][3]
+                            if any(st.worker[x].get("solo") for x in ws if x in st.worker) or any(st.fac[x].get("solo") for x in fs if x in st.fac):
+                                continue
+                            if st.worker[w].get("solo") and len(ws) > 0:
+                                continue
+                            for f_ in [x["id"] for x in st.wp[X]["facs"]]:
+                                if U["F"][f_][0] != D.FREE or U["F"][f_][1] or A["F"][f_][1] or st.f_absent(f_, k):
+                                    continue
+                                if not st.eligible_f(f_, H) or st.w_fskill(w, f_) <= 1e-10:
+                                    continue
+                                if st.fac[f_].get("solo") and len(fs) > 0:
+                                    continue
+                                res.add("inversion", "C11.inversion.%s.facility_task_left_pair_unused" % TASK_RULES[rule],
+                                        "step %d, rule %s: worker %s was given to %s (key %r) although the higher-priority facility task %s "
+                                        "(key %r, holding %s/%s) could have taken it together with the free facility %s of workplace %s"
+                                        % (k, TASK_RULES[rule], w, L, pk(L), H, pk(H), list(ws), list(fs), f_, X), k)
+                                break
                             continue
                         ws = AT[H][2]
                         if any(st.worker[x].get("solo") for x in ws if x in st.worker):
